@@ -244,10 +244,10 @@ def run_case(case, rec, log, rng):
             mat2 = np.asarray(mat2)
             scale = max(np.abs(mat2).max(), 1e-300)
             dev = np.abs(matrix[i] - mat2[:, [l2.index(x) for x in labels]]).max()
-            if dev > 1e-12 * scale + 64 * I.EPS * np.abs(mat2).max() * 1e3:
+            if not dev <= 1e-12 * scale + 64 * I.EPS * np.abs(mat2).max() * 1e3:  # NaN-aware
                 rec.violation("index-identity", ctx, f"matrix[{i}] differs from the index-independent matrix at (centre - shift, width) of that index by {dev:.3e}")
                 return None
-            if i > 0 and np.abs(matrix[i] - matrix[i - 1]).max() > 1e-9 * scale:
+            if i > 0 and not np.abs(matrix[i] - matrix[i - 1]).max() <= 1e-9 * scale:
                 disc = True
     return bool(nontrivial and (disc or not idxdep))
 
